@@ -328,6 +328,10 @@ impl BigNumber {
     }
 
     pub fn rshift(&self, n: u32) -> ClResult<BigNumber> {
+        if n > i32::MAX as u32 {
+            // every bit is shifted out; BN_rshift takes a C int
+            return BigNumber::new();
+        }
         let mut bn = BigNumber::new()?;
         BigNumRef::rshift(&mut bn.openssl_bn, &self.openssl_bn, n as i32)?;
         Ok(bn)
